@@ -1,0 +1,18 @@
+//go:build verif
+
+// Verification hook (engine router2, property C15): read access to a session's local state.
+
+package bfd
+
+// VerifR2State returns the local state of the session (layers.BFDState numbering:
+// 0 AdminDown, 1 Down, 2 Init, 3 Up).
+func VerifR2State(s *Session) int { return int(s.getLocalState()) }
+
+// VerifR2Transition is the raw state machine (state, event) -> state; events 0..3 are the
+// received states, 4 the detection timer, 5 AdminUp.
+func VerifR2Transition(st, ev int) int { return int(transition(state(st), event(ev))) }
+
+// VerifR2RemoteDisc returns the remote discriminator the session currently holds. It is learned
+// from the first message after it was 0 and reset to 0 by the detection-timer branch of Run, after
+// that branch's transition: observing it change to 0 means the timer event has been applied.
+func VerifR2RemoteDisc(s *Session) uint32 { return uint32(s.getRemoteDiscriminator()) }
